@@ -1,7 +1,147 @@
-(* C10 — placeholder while the proofs are being written *)
-From Coq Require Import ZArith QArith List Bool String.
+(* C10 — the 'Power' counter is the energy-conserving derivative of the charge counter (default power_ts4 path).
+   Property theorems only; definitions in theories/Power.v, proofs in theories/Power_proofs.v.
+
+   Objects.  [power_run false (map ESlice ss)] is Engine.run (Pipeline.run, the C03 model of EventProcessor) over the
+   three stages registered by Acelyzer.register_processing_functions for power_ts4 — extract_power_event,
+   sort_events(event_types ["C"], sortkey TS_cycles), compute_power(skip_events = False) — on an arbitrary list [ss] of
+   incoming events (device slices of any number of ranks in any order, events of other phases, slices without
+   Power/ts_all, Prep slices, slices below the 0.1 us cut-off).  [valid_samples p ss] is what the property calls the
+   consecutive valid power samples of rank p: (TS4 wall-clock, reading) of the sampled slices of pid p, time-ordered
+   (stable), zero readings dropped, one sample per time.  [watts_spec a b] = clamp(12 * ((Qb-Qa) mod 2^32) / 512 /
+   (tb-ta)) with clamp(w) = 0 if w > 100 else w.  All statements are for every list [ss], no size bound. *)
+From Coq Require Import ZArith QArith List Bool String Sorted.
 Import ListNotations.
 From AiuModel Require Import Base Pipeline Power Power_proofs.
-Theorem C10_cutoff : (1 # 10 < cutoff)%Q /\ (cutoff < (1 # 10) + (1 # 100000000000000000))%Q.
-Proof. exact cutoff_is_double_tenth. Qed.
-Print Assumptions C10_cutoff.
+Local Open Scope Z_scope.
+
+(* (1) What leaves compute_power: every incoming event unchanged and in order (they pass at once), then — when the
+   counter sorter is drained — rank by rank in order of first sample, exactly one Power event per consecutive pair of
+   valid samples, stamped with the earlier sample's time and carrying the property's value.  Nothing else: the
+   initial zero counter at TS3 and the helper counters never leak, OverflowError is never raised. *)
+Theorem C10_pipeline :
+  forall ss : list slice, charges_32bit ss ->
+    power_run false (map ESlice ss) =
+    map ESlice ss ++ flat_map (fun p => power_spec p ss) (pids_order ss).
+Proof. exact power_run_spec. Qed.
+Print Assumptions C10_pipeline.
+
+(* (2) the i-th Power event of rank p is (t_i, clamp(12 * ((Q_{i+1} - Q_i) mod 2^32) / 512 / (t_{i+1} - t_i))) and there
+   are exactly (number of valid samples - 1) of them *)
+Theorem C10_values :
+  forall (p : Z) (ss : list slice),
+    List.length (power_spec p ss) = pred (List.length (valid_samples p ss)) /\
+    forall i a b, nth_error (valid_samples p ss) i = Some a -> nth_error (valid_samples p ss) (S i) = Some b ->
+      nth_error (power_spec p ss) i = Some (EPow p (fst a) (watts_spec a b)).
+Proof.
+  intros p ss. split; [apply pairs_length|]. intros i a b. apply (pairs_nth (fun a b => EPow p (fst a) (watts_spec a b))).
+Qed.
+Print Assumptions C10_values.
+
+(* (3) values are never negative and never above 100 W; no helper counter and no error marker in the output *)
+Theorem C10_bounds :
+  forall ss : list slice, charges_32bit ss ->
+    Forall ok_ev (power_run false (map ESlice ss)) /\
+    out_val (power_run false (map ESlice ss)) = VL (map ev_val (power_run false (map ESlice ss))).
+Proof.
+  intros ss H. pose proof (power_run_ok ss H) as Hok. split; [exact Hok|].
+  unfold out_val. rewrite (ok_no_err _ Hok). reflexivity.
+Qed.
+Print Assumptions C10_bounds.
+
+(* (4) the samples of a rank are emitted in strictly increasing time order (valid samples have pairwise distinct,
+   increasing times) *)
+Theorem C10_time_order :
+  forall (p : Z) (ss : list slice),
+    strict_times (valid_samples p ss) /\ StronglySorted Qlt (map pow_ts (power_spec p ss)).
+Proof.
+  intros p ss. split; [apply valid_samples_strict|].
+  apply (pairs_times_sorted p). apply valid_samples_strict.
+Qed.
+Print Assumptions C10_time_order.
+
+(* (5) energy: when no value of the rank was zeroed by the 100 W rule, sum_i P_i * (t_{i+1} - t_i) equals
+   12 V * (1/512) * sum_i ((Q_{i+1} - Q_i) mod 2^32) *)
+Theorem C10_energy :
+  forall (p : Z) (ss : list slice), no_clamp (valid_samples p ss) ->
+    (energy (valid_samples p ss) == VOLT * LSB * inject_Z (dcharge_sum (valid_samples p ss)))%Q.
+Proof. intros p ss. apply energy_eq. apply valid_samples_strict. Qed.
+Print Assumptions C10_energy.
+
+(* (6) ... which is the charge really delivered, across any number of wraps of the 32-bit counter: for every
+   un-wrapped monotone charge sequence [us] whose residues are the readings and which advances by less than 2^32
+   between consecutive valid samples, the sum is 12/512 * (U_last - U_first) *)
+Theorem C10_energy_wrap :
+  forall (p : Z) (ss : list slice) (us : list Z),
+    map snd (valid_samples p ss) = map (fun u => u mod W32) us -> mono_steps us ->
+    no_clamp (valid_samples p ss) ->
+    (energy (valid_samples p ss) == VOLT * LSB * inject_Z (last us 0%Z - hd 0%Z us)%Z)%Q.
+Proof.
+  intros p ss us Hm Hs Hn. rewrite <- (dcharge_sum_unwrapped _ us Hm Hs). apply energy_eq; [apply valid_samples_strict|exact Hn].
+Qed.
+Print Assumptions C10_energy_wrap.
+
+(* (7) regression statement for the defect fixed by b68e6f2 (DESIGN 6/F6): two consecutive valid samples with the
+   same reading give 0 W (not a full 2^32 wrap), whatever their distance in time *)
+Theorem C10_equal_readings_zero :
+  forall a b : Q * Z, snd a = snd b -> (watts_spec a b == 0)%Q.
+Proof. exact equal_readings_zero. Qed.
+Print Assumptions C10_equal_readings_zero.
+
+(* ---------------------------------------------------------------- non-vacuity *)
+Definition ex_slice (id pid : Z) (name : string) (dur t3 t4 : Q) (q : Z) : slice :=
+  {| s_id := id; s_pid := pid; s_ph := 0; s_name := name; s_has := true; s_dur := dur; s_ts3 := t3; s_ts4 := t4;
+     s_charge := q |}.
+(* two ranks interleaved, not in time order; a wrap (4294967040 -> 256), equal readings two seconds apart, an equal
+   TS4, a zero reading, a Prep slice, a slice at the cut-off, a value above 100 W *)
+Definition ex_ss : list slice :=
+  [ ex_slice 1 3 "k Cmpt Exec" 2 71 72 256;
+    ex_slice 2 3 "k Cmpt Exec" 2 63 64 4294967040;
+    ex_slice 3 0 "k DmaI" 2 999 1000 1000;
+    ex_slice 4 3 "k Cmpt Prep" 2 65 66 77;
+    ex_slice 5 0 "k DmaO" 2 2098151 2098152 1000;
+    ex_slice 6 3 "conv" 2 79 80 0;
+    ex_slice 7 3 "conv" 2 71 72 999;
+    ex_slice 8 0 "conv" (3602879701896397 # 36028797018963968) 2098153 2098154 5000;
+    ex_slice 9 3 "conv" 2 87 88 1280;
+    ex_slice 10 0 "conv" 2 2098159 2098160 1512;
+    ex_slice 11 0 "conv" 2 2098160 (4297031681 # 2048) 900000 ].
+
+Example C10_nonvacuous :
+  charges_32bit ex_ss /\
+  pids_order ex_ss = [3; 0] /\
+  valid_samples 3 ex_ss = [(64 # 1, 4294967040); (72 # 1, 256); (88 # 1, 1280)] /\
+  valid_samples 0 ex_ss = [(1000 # 1, 1000); (2098152 # 1, 1000); (2098160 # 1, 1512); (4297031681 # 2048, 900000)] /\
+  val_eqb (out_val (power_run false (map ESlice ex_ss)))
+    (VL (map (fun s => VL [VZ 0; VZ (s_id s)]) ex_ss ++
+        [ VL [VZ 2; VZ 3; VQ (64 # 1); VQ (3 # 2); VS "Power"; VS "Power4"];
+          VL [VZ 2; VZ 3; VQ (72 # 1); VQ (3 # 2); VS "Power"; VS "Power4"];
+          VL [VZ 2; VZ 0; VQ (1000 # 1); VQ 0; VS "Power"; VS "Power4"];
+          VL [VZ 2; VZ 0; VQ (2098152 # 1); VQ (3 # 2); VS "Power"; VS "Power4"];
+          VL [VZ 2; VZ 0; VQ (2098160 # 1); VQ 0; VS "Power"; VS "Power4"] ])) = true.
+Proof.
+  split; [repeat constructor; vm_compute; intuition discriminate|].
+  split; [vm_compute; reflexivity|]. split; [vm_compute; reflexivity|]. split; vm_compute; reflexivity.
+Qed.
+
+(* premises of (5)/(6) are met by rank 3 of the example: no clamp, un-wrapped charge 4294967040, 4294967552, 4294968576 *)
+Example C10_energy_nonvacuous :
+  no_clamp (valid_samples 3 ex_ss) /\
+  map snd (valid_samples 3 ex_ss) = map (fun u => u mod W32) [4294967040; 4294967552; 4294968576] /\
+  mono_steps [4294967040; 4294967552; 4294968576] /\
+  (energy (valid_samples 3 ex_ss) == VOLT * LSB * inject_Z (4294968576 - 4294967040)%Z)%Q /\
+  ~ no_clamp (valid_samples 0 ex_ss).
+Proof.
+  split; [repeat constructor; vm_compute; discriminate|].
+  split; [vm_compute; reflexivity|].
+  split; [repeat constructor; vm_compute; intuition discriminate|].
+  split; [vm_compute; reflexivity|].
+  intro H. inversion H as [|? ? _ H1]; subst. inversion H1 as [|? ? _ H2]; subst. inversion H2 as [|? ? H3 _]; subst.
+  vm_compute in H3. apply H3. reflexivity.
+Qed.
+
+(* the model raises the error marker exactly where the code raises OverflowError: time going backwards at
+   compute_power (impossible behind the sorter, by C10_bounds) *)
+Example C10_error_branch_reachable_without_sorter :
+  model_val ((false, 1), [ECnt {| c_pid := 5; c_cat := "k"; c_ts := 8; c_key := 8; c_q := 105 |};
+                          ECnt {| c_pid := 5; c_cat := "k"; c_ts := 0; c_key := 0; c_q := 210 |}]) = VE "OverflowError".
+Proof. vm_compute. reflexivity. Qed.
